@@ -101,5 +101,24 @@ pub fn est_laws(_args: &[String]) -> String {
             }
         }
     }
+    // a reset after an idle period without any recorded progress forgets the idle time too
+    for idle_ms in [0u64, 1, 5_000, 3_600_000] {
+        let t0 = crate::base();
+        let mut e = Est::new(t0);
+        let mut t = t0 + Duration::from_millis(idle_ms);
+        e.record(0, t);          // an update without progress
+        e.reset(t);
+        let mut steps = 0u64;
+        for _ in 0..5 {
+            t += Duration::from_millis(100);
+            steps += 1;
+            e.record(steps, t);
+        }
+        let r = e.rate(t);
+        tried += 1;
+        if (r - 10.0).abs() / 10.0 > 1e-6 {
+            return format!("{{\"found\": true, \"clause\": \"C09 estimates after reset ignore everything before it (also an idle period without progress)\", \"input\": {{\"idle_ms_before_reset\": {}, \"true_rate_after\": 10, \"reported\": {}}}, \"rerun\": \"replay est_laws\"}}", idle_ms, r);
+        }
+    }
     format!("{{\"found\": false, \"tried\": {}}}", tried)
 }
